@@ -87,7 +87,8 @@ def main(argv):
             res["demo_patched_exit"] = rc1
             cenv = dict(os.environ, VERIF_REPO=wt, VERIF_OUT=out)
             cenv.pop("PYTHONPATH", None)
-            which = props if all_checks else [meta["property"]]
+            outside = meta.get("outside_property")
+            which = props if all_checks else (list(outside.get("reported_by") or []) + [meta["property"]] if outside else [meta["property"]])
             caught = []
             for p in which:
                 rc, o = sh(f"./check {p} {tier}", cwd=VERIF, env=cenv)
@@ -97,12 +98,16 @@ def main(argv):
                     res.setdefault("harness_errors", []).append(f"{p}: exit {rc}: {o[-200:]}")
             res["caught_by"] = caught
             res["detected"] = meta["property"] in caught
+            if outside:   # breaks something, but not the property it was written for (see meta.json): judged by the sibling checks
+                res["outside_property"] = True
+                res["own_check_silent"] = meta["property"] not in caught
+                res["detected"] = any(c in caught for c in outside["reported_by"]) if outside.get("reported_by") else None
         finally:
             sh(f"git -C {REPO} worktree remove --force {wt}")
             shutil.rmtree(tmp, ignore_errors=True)
         results[sid] = res
         print(sid, json.dumps(res), flush=True)
-    live = {s: r for s, r in results.items() if not r.get("obsolete")}
+    live = {s: r for s, r in results.items() if not r.get("obsolete") and r.get("detected") is not None}
     missed = [s for s, r in live.items() if not r.get("detected")]
     print(f"\n{len(live) - len(missed)}/{len(live)} seeded changes detected by their property's {tier} check; missed: {missed}"
           + (f"; obsolete (neutralised by a later fix, skipped): {[s for s in results if s not in live]}" if len(live) != len(results) else ""))
